@@ -260,13 +260,19 @@ fn printed_unit_ok(text: &str, info: &LineInfo) -> Result<bool, String> {
         if side.is_empty() {
             continue;
         }
+        // the layout is the tool's choice: a side may be parenthesised (`m/(hr⋅s)`) and a power may
+        // carry a superscript minus (`s⁻¹`)
+        let side = side.strip_prefix('(').and_then(|x| x.strip_suffix(')')).unwrap_or(side);
         for it in side.split('⋅') {
             let mut word = String::new();
             let mut pow: Option<u32> = None;
+            let mut neg = false;
             for c in it.chars() {
-                if let Some(d) = superscript(c) {
+                if c == '⁻' && pow.is_none() && !neg {
+                    neg = true;
+                } else if let Some(d) = superscript(c) {
                     pow = Some(pow.unwrap_or(0) * 10 + d);
-                } else if pow.is_some() {
+                } else if pow.is_some() || neg {
                     return Err(format!("printed unit {text:?}: characters after a superscript power in {it:?}"));
                 } else {
                     word.push(c);
@@ -275,7 +281,10 @@ fn printed_unit_ok(text: &str, info: &LineInfo) -> Result<bool, String> {
             if word.is_empty() {
                 return Err(format!("printed unit {text:?} has an empty factor"));
             }
-            items.push((word, sign * pow.unwrap_or(1) as i64));
+            if neg && pow.is_none() {
+                return Err(format!("printed unit {text:?}: a superscript minus without digits in {it:?}"));
+            }
+            items.push((word, sign * if neg { -1 } else { 1 } * pow.unwrap_or(1) as i64));
         }
     }
     let numerators = items.iter().filter(|i| i.1 > 0).count();
